@@ -156,7 +156,7 @@ def dataOf (script : List Ev) : Bytes :=
 
 /-- a fragmentation of a reply: data reads, empty timed-out reads, data that arrives together with a deadline error,
 and possibly a last read that returns the rest together with EOF (the peer closes right after replying) -/
-def onlyDataAndTimeouts (script : List Ev) : Bool :=
+def onlyDataAndTimeouts (script : List Ev) (serial : Bool := false) : Bool :=
   let body := match script.getLast? with
     | some (.eof _) => script.dropLast
     | _ => script
@@ -164,6 +164,8 @@ def onlyDataAndTimeouts (script : List Ev) : Bool :=
     | .data _ => true
     | .tdata _ => true
     | .timeout => true
+    -- a serial port that reports its own read timeout as (0, io.EOF): an empty timed-out read
+    | .eof b => serial && b.isEmpty
     | _ => false
 
 def fragData (script : List Ev) : Bytes :=
@@ -181,8 +183,8 @@ def judgeC07 (op : DoOp) (out : String) : Expect :=
   | some (r, _, _) =>
     if op.nilReq || op.notConnected || op.writeFails then .free else
     if (out.splitOn "CALL-AFTER-A-FAILED-ONE-DIFFERS-FROM-THE-FIRST-CALL-OF-A-NEW-CLIENT").length > 1 then
-      .pred false "after a failed exchange the same client was handed a complete, correct reply to its next request and did not return what a new client returns for it" else
-    if !onlyDataAndTimeouts op.script || fragData op.script != op.reply then .noPanic else
+      .pred false "after an exchange that failed (or that was completed by a late read) the same client was handed a complete, correct reply to its next request and did not return what a new client returns for it" else
+    if !onlyDataAndTimeouts op.script (op.kind == .serial) || fragData op.script != op.reply then .noPanic else
     if op.kind == .serial && op.flusher == .failing then .noPanic else
     let fr := op.kind.framing
     match wellFormedReply fr op.tid r op.reply with
@@ -198,7 +200,7 @@ def kfC07 (op : DoOp) : Option String :=
   match op.request with
   | none => none
   | some (r, _, expected) =>
-    if !onlyDataAndTimeouts op.script || fragData op.script != op.reply then none else
+    if !onlyDataAndTimeouts op.script (op.kind == .serial) || fragData op.script != op.reply then none else
     let fr := op.kind.framing
     if (wellFormedReply fr op.tid r op.reply).isSome && expected != op.reply.length then some ("KF-C07-" ++ fcTag r op.kind)
     else if (exceptionReply fr op.tid r op.reply).isSome && expected < op.reply.length then some ("KF-C07-" ++ fcTag r op.kind ++ "-exception")
@@ -274,6 +276,8 @@ def judgeC12 (op : DoOp) (out : String) : Expect :=
 
 /-- C19: the hooks see exactly what the transport saw -/
 def judgeC19 (op : DoOp) (out : String) : Expect :=
+  if (out.splitOn "OLD-BYTES-WERE-SENT").length > 1 then
+    .pred false "the request value was changed by its owner between two calls; the bytes written (and shown to the hook) were those of the earlier call, not the request as it is encoded now" else
   if !op.hooks || op.nilReq || op.notConnected then .noPanic else
   match out.splitOn " | " with
   | [o1, log, o2, conn] =>
